@@ -78,7 +78,8 @@ def gen_spec(rng, unset_prob=0.15, grid=None):
     maybe("px", lambda: rng.choice(g))
     maybe("py", lambda: rng.choice(g))
     maybe("pz", lambda: rng.choice(g))
-    maybe("E", lambda: rng.choice([0.5, 1.0, 2.0, 3.0, 4.0, 6.0]))
+    # energies are mostly positive; a few negative ones (the formats can carry them) make partial sums non-monotone
+    maybe("E", lambda: rng.choice([0.5, 1.0, 2.0, 3.0, 4.0, 6.0] * 3 + [-0.5, -2.0, -4.0, -6.0]))
     if rng.random() >= unset_prob / 2:
         s["pdg"] = rng.choice(VALID_PDGS) if rng.random() < 0.85 else rng.choice(INVALID_PDGS)
         if rng.random() < 0.12:  # the code was something else before (valid <-> invalid), possibly assigned under -W error
